@@ -10,9 +10,11 @@
     with TraceEmission: size <= max_datagram_size, padding of datagrams that carry
     Initial packets, and sent <= 3 x received per unvalidated address, where an address
     counts as validated as permissively as RFC 9000 allows (an authenticated Handshake
-    packet came from it, or a PATH_RESPONSE echoed a challenge sent to it).
+    packet came from it, a PATH_RESPONSE echoed a challenge sent to it, or the Retry token issued to it came
+    back from it).  Retry runs and resumed sessions whose early data fills the congestion window are included.
 """
 import json
+import os
 import random
 
 from .. import trace
@@ -23,12 +25,46 @@ _A = None
 
 
 def job_fn(job):
-    s = script.run(_A, job["cfg"], job["script"], seed=job["seed"], hs_adv=job["hs_adv"])
+    s = script.run(_A, job["cfg"], job["script"], seed=job["seed"], hs_adv=job["hs_adv"], early=job.get("early"))
     lines = project.emission(s.log)
     unval = any(e["k"] == "net" and e["fate"] in ("spoof", "rebind") for e in s.log)
     late_initial = sum(1 for l in lines if l["ev"] == "dg" and l["hasInitial"]) > 2
     return {"lines": lines, "nontrivial": bool(unval or late_initial), "raised": s.raised[:3],
-            "ndg": sum(1 for l in lines if l["ev"] == "dg")}
+            "ndg": sum(1 for l in lines if l["ev"] == "dg"),
+            "zrtt": sum(1 for e in s.log if e["k"] == "pkt" and e["type"] == "0rtt"), "retries": s.retry["sent"],
+            "token_initials": sum(1 for e in s.log if e["k"] == "pkt" and e["type"] == "initial" and e["ep"] == "c"
+                                  and any(p.get("token") for p in s.emitted.get(e["dg"], [])[e["idx"]:e["idx"] + 1]))}
+
+
+def zrtt_jobs(rnd, per):
+    """Retry (the Retry packet counts towards the bytes sent to the unvalidated address; the Initial that carries the
+    token validates it; spoofed copies do not) and resumed sessions whose early data fills the congestion window before
+    the Initial has to be sent again."""
+    jobs = []
+    for mode in script.ZRTT_MODES:
+        for prof in ("amplify", "lossy", "dup"):
+            for i in range(per):
+                cfg = dict({"mds": rnd.choice([1200, 1280, 1350, 1452]), "chain": rnd.random() < 0.5, "smallcert": rnd.random() < 0.3,
+                            "cc": rnd.choice(["reno", "cubic"]), "version": rnd.choice(["v1", "v2", "v1->v2"])}, **mode)
+                jobs.append({"cfg": cfg, "script": script.random_script(rnd, rnd.choice([15, 40, 70]), script.PROFILES[prof]),
+                             "seed": rnd.randrange(1 << 30), "hs_adv": rnd.random() < 0.7,
+                             "early": script.random_early(rnd, sizes=[30, 1100, 3000, 9000, 20000]), "profile": "zrtt-" + prof})
+    fill = [["write", "c", 0, 20000, False], ["write", "c", 4, 3000, True]]
+    for mode in script.ZRTT_MODES:
+        for mds in ((1200, 1452)[len(jobs) % 2:][:1] if per < 2 else (1200, 1452)):
+            # the window is full of early data; the server's whole first flight is lost (twice), so the client has to send
+            # its Initial again; spoofed copies of the first datagram reach the server in between
+            jobs.append({"cfg": dict({"mds": mds, "chain": True}, **mode),
+                         "script": [["spoof", 0, 0], ["deliver", 0], ["deliver", 0], ["deliver", 0], ["drop", 0], ["drop", 0], ["drop", 0], ["timer", "c"],
+                                    ["spoof", 0, 1], ["deliver", 0], ["drop", 0], ["drop", 0], ["drop", 0], ["timer", "c"], ["timer", "s"]],
+                         "seed": 61, "hs_adv": True, "early": fill, "profile": "corpus-zrtt-window-full-initial-again"})
+            # a silent client after the (token-bearing) Initial: the server may only retransmit within its budget
+            sc = [["deliver", 0], ["deliver", 0], ["deliver", 0]]
+            for _ in range(5):
+                sc += [["drop", 0], ["drop", 0], ["drop", 0], ["drop", 0], ["timer", "s"]]
+            jobs.append({"cfg": dict({"mds": mds}, **mode), "script": sc, "seed": 62, "hs_adv": True, "early": fill[1:],
+                         "profile": "corpus-zrtt-silent-client"})
+    return jobs
 
 
 def judge(check, jobs, results, name):
@@ -48,6 +84,9 @@ def judge(check, jobs, results, name):
         seen.add((ji, clause))
         ln = lines[i]
         sig = "emission:%s:ep=%s:initial=%s" % (clause, ln.get("ep"), ln.get("hasInitial"))
+        mode = jobs[ji]["cfg"]
+        if mode.get("retry") or mode.get("resume"):
+            sig += ":" + "+".join((["retry"] if mode.get("retry") else []) + (["resume-" + mode["resume"]] if mode.get("resume") else []))
         detail = {"clause": clause, "line": ln, "job": jobs[ji]}
         (check.drift if clause.startswith("model:") else check.violation)(sig, detail)
 
@@ -105,7 +144,12 @@ def run(check):
             jobs.append({"cfg": {"mds": mds, "chain": chain is True, "smallcert": chain == "small"},
                          "script": sc[:16] + [["close", "s", 0], ["drop", 0], ["timer", "s"]], "seed": 22,
                          "hs_adv": True, "profile": "corpus-silent-client-server-close"})
+    jobs += zrtt_jobs(rnd, 1 if check.quick else 20)
     results = runner.run_many(job_fn, jobs)
+    check.cov["zero_rtt_packets_on_the_wire"] = sum(r["zrtt"] for r in results)
+    check.cov["retry_packets_sent"] = sum(r["retries"] for r in results)
+    check.cov["client_initials_carrying_a_retry_token"] = sum(r["token_initials"] for r in results)
+    check.cov["retry_or_resumed_runs"] = sum(1 for j in jobs if j["cfg"].get("retry") or j["cfg"].get("resume"))
     judge(check, jobs, results, "TraceEmission_V")
     for job, res in zip(jobs, results):
         check.count(repr(job), nontrivial=res["nontrivial"], evaluations=res["ndg"])
@@ -118,7 +162,9 @@ def run(check):
     check.cov["trusted_base"] = ["TLC 1.8", "netsim driver", "observer (packet types, ack-eliciting classification, PATH_CHALLENGE / "
                                  "PATH_RESPONSE payloads)", "internal read: keys installed for the epoch of an arriving packet"]
     check.assumptions += ["an address counts as validated once an authenticated Handshake packet arrived from it or a PATH_RESPONSE "
-                          "echoed a challenge sent to it (the most permissive reading of RFC 9000 section 8); Retry tokens and 0-RTT "
-                          "are not exercised by this check yet",
+                          "echoed a challenge sent to it, or an Initial carrying the Retry token issued to it arrived from it (the most "
+                          "permissive reading of RFC 9000 section 8; aioquic itself does not count the token); in Retry runs the "
+                          "Retry packets (sent by the simulator playing the server application, independent encoder) and the "
+                          "Initial packets they answer count towards the bytes sent to / received from that address",
                           "only the server is subject to the anti-amplification clause (a client's peer address is the one the "
                           "application passed to connect)"]
